@@ -29,7 +29,7 @@ REACH = [("yamlpath/common/keywordsearches.py", "has_child,_has_concrete_child",
          ("yamlpath/common/keywordsearches.py", "parent", "parent"),
          ("yamlpath/common/keywordsearches.py", "distinct,unique,_track_seen_value", "distinct/unique")]
 SIZES = {"quick": 400000, "thorough": 4000000}
-REQUIRED_COUNTERS = ["minmax_checked", "unique_distinct_checked", "has_child_checked", "parent_checked", "name_checked", "chain_checked", "wildcard_parent_checked", "collector_parent_name_checked", "parent_then_name_checked", "nested_collector_keyword_checked",
+REQUIRED_COUNTERS = ["has_child_empty_members_checked", "collector_keyword_name_checked", "minmax_checked", "unique_distinct_checked", "has_child_checked", "parent_checked", "name_checked", "chain_checked", "wildcard_parent_checked", "collector_parent_name_checked", "parent_then_name_checked", "nested_collector_keyword_checked",
                      "reevaluated_with_same_path_object", "multi_branch_minmax_checked", "key_across_aoh_parent_checked"]
 
 WORDS = ["apple", "bob", "cat", "dog", "emu", "fig"]
@@ -356,6 +356,116 @@ def check_records(ctx, rng):
                   [refs[i] for i in (lack if inv else haskey)])
 
 
+def check_has_child_empty_members(ctx, rng):
+    """has_child applied to an Array-of-Hashes node ITSELF (and, for comparison, to each member through `*`) when some
+    members are EMPTY Hashes: an empty Hash lacks every key, so it is a member of every inverted has_child selection."""
+    n = rng.randrange(2, 7)
+    recs, keysets = [], []
+    for i in range(n):
+        x = rng.random()
+        if x < 0.3:
+            recs.append("{}")
+            keysets.append(set())
+        else:
+            ks = set(k for k in ("v", "w", "name") if rng.random() < 0.6)
+            recs.append("{%s}" % ", ".join("%s: %s" % (k, rng.choice(["1", "x", "null", "[]", "{}"])) for k in sorted(ks)))
+            keysets.append(ks)
+    shape = rng.choice(["aoh", "aoh", "hoh"])
+    if shape == "aoh":
+        doc = "{recs: [%s], o: 1}" % ", ".join(recs)
+        refs = list(range(n))
+    else:
+        refs = ["r%d" % i for i in range(n)]
+        doc = "{recs: {%s}, o: 1}" % ", ".join("%s: %s" % (k, r) for k, r in zip(refs, recs))
+    data = yp.load(doc)
+    cont = data["recs"]
+    if any(not k for k in keysets) and any(k for k in keysets):
+        ctx.mark_nontrivial([doc, "has_child-empty-members"])
+    for key in ("v", "w", "zz"):
+        has = [i for i in range(n) if key in keysets[i]]
+        lack = [i for i in range(n) if key not in keysets[i]]
+        for inv in (False, True):
+            forms = ["recs[%shas_child(%s)]", "recs.*[%shas_child(%s)]", "/recs/*[%shas_child(%s)]"] if shape == "aoh" else ["recs.*[%shas_child(%s)]"]
+            for form in forms:
+                path = form % ("!" if inv else "", key)
+                ctx.counters["has_child_empty_members_checked"] = ctx.counters.get("has_child_empty_members_checked", 0) + 1
+                judge(ctx, "%shas_child/empty-members/%s%s" % ("!" if inv else "", shape, "-via-wildcard" if "*" in form else ""),
+                      {"doc": doc, "query": path}, run(data, path), cont, [refs[i] for i in (lack if inv else has)])
+
+
+def check_collector_then_keyword_name(ctx, rng):
+    """name() (and parent()) of members that a keyword or an index has picked out of a COLLECTOR's results: the name is the
+    key or index under which the member is held in the DOCUMENT, not its position among the collected results."""
+    vals, txt, kind = gen_scalars(rng)
+    if any(v is None for v in vals) or len(vals) < 2:
+        return
+    shape = rng.choice(["map", "list"])
+    if shape == "map":
+        keys = rng.sample(["pears", "plums", "figs", "kiwis", "limes", "dates", "sloes", "yuzu"], len(vals))
+        doc = "{stock: {%s}, o: 1}" % ", ".join("%s: %s" % (k, t) for k, t in zip(keys, txt))
+        inner = rng.choice(["/stock/*", "stock.*"])
+    else:
+        keys = list(range(len(vals)))
+        doc = "{stock: [%s], o: 1}" % ", ".join(txt)
+        # (not "(/stock)": whether a Collector over a list-valued node stands for the list or for its elements - and so what
+        # the parent of a picked element is - is not settled by the statement)
+        inner = rng.choice(["/stock/*", "stock.*"])
+    data = yp.load(doc)
+    cont = data["stock"]
+    ctx.mark_nontrivial([doc, "collector-keyword-name"])
+    mx, mn = max(vals), min(vals)
+    sels = [("[max()]", [i for i, v in enumerate(vals) if v == mx]), ("[min()]", [i for i, v in enumerate(vals) if v == mn]),
+            ("[!max()]", [i for i, v in enumerate(vals) if v != mx]), ("[!min()]", [i for i, v in enumerate(vals) if v != mn])]
+    j = rng.randrange(len(vals))
+    sels.append(("[%d]" % j, [j]))
+    # a keyword over what another keyword left: positions in the filtered list differ from indexes in the document
+    rest = [i for i, v in enumerate(vals) if v != mn]
+    if rest:
+        rmx = max(vals[i] for i in rest)
+        sels.append(("NESTED", [i for i in rest if vals[i] == rmx]))
+    for sel, members in sels:
+        if sel == "NESTED":
+            if shape != "list":
+                continue
+            q0 = "(/stock[!min()])[max()]"
+        else:
+            q0 = "(%s)%s" % (inner, sel)
+        for tail, what in (("[name()]", "name"), ("[parent()][name()]", "parent-name"), ("[parent()]", "parent")):
+            q = q0 + tail
+            ctx.evaluations += 1
+            ctx.counters["collector_keyword_name_checked"] = ctx.counters.get("collector_keyword_name_checked", 0) + 1
+            got = run(data, q)
+            case = {"doc": doc, "query": q}
+            if got[0] == "CRASH":
+                ctx.count("crash_handed_to_C15")
+                continue
+            if got[0] != "OK":
+                ctx.violation("collector-%s-%s/error" % ("index" if sel[1:2].isdigit() else "keyword", what), {"case": case, "summary": "raised %s" % got[1]})
+                continue
+            outs = []
+            for r in got[1]:
+                if what == "parent":
+                    u = r
+                    while isinstance(u, NodeCoords):
+                        u = u.node
+                    outs.append(u)
+                    continue
+                u = NodeCoords.unwrap_node_coords(r)
+                outs.extend(u if isinstance(u, list) else [u])
+            if what == "name":
+                ok = sorted(str(x) for x in outs) == sorted(str(keys[i]) for i in members)
+                wanttxt = [keys[i] for i in members]
+            elif what == "parent-name":
+                ok = all(str(x) == "stock" for x in outs) and len(outs) == len(members)
+                wanttxt = ["stock"] * len(members)
+            else:
+                ok = all(x is cont for x in outs) and len(outs) == len(members)
+                wanttxt = "the stock container, %d times" % len(members)
+            if not ok:
+                ctx.violation("collector-%s-%s" % ("index" if sel[1:2].isdigit() else "keyword", what), {"case": case,
+                              "summary": "got %r ; the selected members are held under %r -> %r" % ([repr(x)[:30] for x in outs[:8]], [keys[i] for i in members], wanttxt)})
+
+
 def check_parent_name(ctx, rng):
     from vf.gen import docs as gd
     from vf.model import edits as E
@@ -488,6 +598,10 @@ def run_shard(ctx):
             check_scalar_list(ctx, rng)
         elif x < 0.75:
             check_records(ctx, rng)
+        elif x < 0.82:
+            check_has_child_empty_members(ctx, rng)
+        elif x < 0.9:
+            check_collector_then_keyword_name(ctx, rng)
         else:
             check_parent_name(ctx, rng)
 
